@@ -497,7 +497,7 @@ package keeper
 //@ define SLASHFRAC = get(prm).SlashFraction
 //@ define BASE = get(prm).BaseDenom
 //@ func Keeper.Slash
-//@   property C07, C13
+//@   property C07, C13, C16
 //@   returns err
 //@   requires has(prm) && !isnil(SLASHFRAC) && raw(SLASHFRAC) >= 0 && raw(SLASHFRAC) <= DEC_ONE && ufb("denom_valid", BASE)
 //@   requires k.feeCollectorName != "service_request_account" && k.feeCollectorName != "service_deposit_account"
@@ -518,7 +518,8 @@ package keeper
 //@   ensures keeps_nonneg: forall s:Str :: forall p:Bytes :: forall d:Str :: has(bindings, s, p) ==> amt(BIND(s, p).Deposit, d) >= 0
 //@   lemma @return depUpd(old(bindings), svc, prov, BIND(svc, prov)) if err == nil
 //@   ensures deposit_inv: wf && err == nil && old(depositInv) ==> depositInv
-//@   nopanic C13
+// no slash fraction and base denomination accepted by parameter validation may make this abort (C16; it runs in the end blocker, C13)
+//@   nopanic C13, C16
 //@ end
 
 //@ func Keeper.GetServiceDefinition
